@@ -93,6 +93,9 @@ func deepScenario(sc *dagh.Scenario, thorough bool) bool {
 	if bad > 1 {
 		return false
 	}
+	if sc.Mode == "max2" && sc.N == 3 && !thorough {
+		return false // two slots for three tasks: the passes with one deviation cover it in the quick tier
+	}
 	if (bad == 1 || retry) && (sc.Mode == "max1" || sc.Mode == "max2") {
 		return false
 	}
@@ -114,7 +117,7 @@ func runDagCheck(c *RunCtx) {
 		pass  dagPass
 		pname string
 		sc    *dagh.Scenario
-		por   bool
+		por   bool // unbounded exploration (sleep sets / visited states) instead of a bounded pass
 	}
 	var units []unit
 	for pi, pass := range passes {
@@ -131,18 +134,50 @@ func runDagCheck(c *RunCtx) {
 			if (sc.Light == 1 && pass.K+pass.D > 1) || (sc.Light == 2 && pass.K+pass.D > 0) {
 				continue
 			}
+			if pass.Canon && c.Tier != "thorough" && c.ID != "C16" && sc.N <= 2 && len(sc.Shared) == 0 && !sc.Rerun && !sc.BigOutput {
+				continue // covered without any bound by the visited-state exploration below (the thorough tier runs both)
+			}
 			units = append(units, unit{pass, pname, sc, false})
 		}
 	}
-	// thorough: unbounded sleep-set exploration of the small scenarios (every Mazurkiewicz trace)
-	if c.Tier == "thorough" && os.Getenv("VERIF_K") == "" {
-		for _, fam := range []string{c.ID} {
-			scs := fams[fam]
-			for _, sc := range scs {
-				if sc.N > 2 || !sc.Canon || sc.Light != 0 || sc.BigOutput || sc.History || sc.Rerun {
-					continue
+	// unbounded exploration with visited-state pruning of the small scenarios: every reachable state (up to commuting
+	// independent operations) is visited, no deviation bound.  quick: n <= 2 where the state space is known to be
+	// small; thorough: every canonical scenario with n <= 3, under a per-scenario state cap.
+	scQuick := func(sc *dagh.Scenario) bool {
+		if sc.N > 2 {
+			return false
+		}
+		if sc.N == 2 && sc.Buffer && (sc.Mode == "par" || sc.Mode == "max2" || sc.Mode == "max3") {
+			edge := false
+			for _, c := range sc.Hist {
+				if c.Op == "dep" {
+					edge = true
 				}
-				units = append(units, unit{dagPass{fam, true, 99, 0}, "sleepset_unbounded_n<=2", sc, true})
+			}
+			if !edge {
+				return false // two independent tasks with buffered output: several 10^5 states, thorough tier only
+			}
+		}
+		if sc.N == 2 && sc.Cancel && (sc.Mode == "par" || sc.Mode == "max2" || sc.Mode == "max3") {
+			edge := false
+			for _, c := range sc.Hist {
+				if c.Op == "dep" {
+					edge = true
+				}
+			}
+			if !edge {
+				return false // two independent tasks and a cancellation: 7*10^5 states, thorough tier only
+			}
+		}
+		return true
+	}
+	if os.Getenv("VERIF_K") == "" && c.ID != "C16" {
+		for _, sc := range fams[c.ID] {
+			if !sc.Canon || sc.Light != 0 || sc.BigOutput || sc.History || sc.Rerun || len(sc.Shared) > 0 {
+				continue
+			}
+			if c.Tier == "thorough" && sc.N <= 3 || scQuick(sc) {
+				units = append(units, unit{dagPass{c.ID, true, 99, 0}, "visited_state_unbounded", sc, true})
 			}
 		}
 	}
@@ -169,32 +204,49 @@ func runDagCheck(c *RunCtx) {
 			pass, pname, sc := units[ui].pass, units[ui].pname, units[ui].sc
 			if units[ui].por {
 				t0 := time.Now()
-				msg, choices, policy, st, obs, terr := porScenario(c.ID, sc, c.Deadline, false, 0)
+				maxStates := int64(0)
+				if c.Tier == "thorough" {
+					maxStates = 4000000
+				}
+				msg, choices, policy, st, obs, terr := scScenario(c.ID, sc, c.Deadline, maxStates)
 				res.count("scenarios", 1)
 				res.count(pname+"_scenarios", 1)
 				res.count(pname+"_executions", st.Execs)
-				res.count(pname+"_executions_pruned_by_sleep_sets", st.Pruned)
+				res.count(pname+"_states_visited", st.States)
+				res.count(pname+"_executions_cut_at_a_visited_state", st.Pruned)
+				res.count(pname+"_executions_run_to_the_end", st.Complete)
 				res.Evaluations += st.Execs
-				res.Traces += st.Execs - st.Pruned
-				res.States += st.NewPoints
+				res.Traces += st.Complete
+				res.States += st.States
+				res.Transitions += st.Execs
 				res.Distinct += int64(len(obs))
 				if st.Capped {
-					res.count(pname+"_scenarios_not_finished_before_the_deadline", 1)
-					res.Capped = true
+					res.count(pname+"_scenarios_not_finished", 1)
+					if c.Tier != "thorough" || c.expired() {
+						res.Capped = true
+					}
 				} else {
 					res.count(pname+"_scenarios_completed", 1)
 				}
 				if terr != "" {
-					res.ToolError = fmt.Sprintf("%s on scenario %s (sleep-set mode)", terr, sc)
+					res.ToolError = fmt.Sprintf("%s on scenario %s (visited-state mode)", terr, sc)
 					return
 				}
 				if msg != "" {
 					dc := dagCase{Scenario: sc, Choices: choices, K: 99, D: policy, POR: true}
+					// determinism: the same choices must give the same findings, five times
+					for i := 0; i < 5; i++ {
+						m2, _ := replayDag(c.ID, &dc, nil)
+						if m2 != msg {
+							res.ToolError = fmt.Sprintf("violation does not replay deterministically on %s (visited-state mode): %q vs %q", sc, msg, m2)
+							return
+						}
+					}
 					raw, _ := json.Marshal(dc)
-					res.violate(Violation{Prop: c.ID, Msg: fmt.Sprintf("%s  [scenario: %s; sleep-set mode, rotation policy %d]", msg, sc, policy), Case: raw, Weight: 50000 + sc.N})
+					res.violate(Violation{Prop: c.ID, Msg: fmt.Sprintf("%s  [scenario: %s; unbounded visited-state exploration, rotation policy %d]", msg, sc, policy), Case: raw, Weight: 50000 + sc.N})
 				}
 				if os.Getenv("VERIF_DEBUG") != "" {
-					fmt.Fprintf(os.Stderr, "DBG sleepset execs=%d pruned=%d %.1fs capped=%v %s\n", st.Execs, st.Pruned, time.Since(t0).Seconds(), st.Capped, sc)
+					fmt.Fprintf(os.Stderr, "DBG visited-state states=%d execs=%d %.1fs capped=%v %s\n", st.States, st.Execs, time.Since(t0).Seconds(), st.Capped, sc)
 				}
 				continue
 			}
@@ -241,6 +293,19 @@ func runDagCheck(c *RunCtx) {
 					var mine []string
 					for _, f := range fs {
 						if propMatches(c.ID, f) {
+							if f.Known != "" {
+								// an instance of a recorded finding: noted, and the exploration goes on so that it cannot mask another violation
+								if _, seen := res.KnownSeen[f.Known]; !seen {
+									dc := dagCase{Scenario: sc, Choices: ch.Choices(), K: k, D: db}
+									raw, _ := json.Marshal(dc)
+									if res.KnownSeen == nil {
+										res.KnownSeen = map[string]Violation{}
+									}
+									res.KnownSeen[f.Known] = Violation{Prop: c.ID, Msg: fmt.Sprintf("%s  [scenario: %s; k=%d d=%d]", f.Msg, sc, k, db), Case: raw, Known: f.Known, Weight: k*1000 + len(sc.Hist)*10 + sc.N}
+								}
+								res.count("executions_showing_a_recorded_finding", 1)
+								continue
+							}
 							mine = append(mine, f.Msg)
 						}
 					}
@@ -304,6 +369,8 @@ func runDagCheck(c *RunCtx) {
 			res.count("buffer_flushes", cnt.Flushes)
 			res.count("shared_graph_enters", cnt.SharedEnters)
 			res.count("executions_ending_with_a_leaked_library_goroutine_after_run_returned", cnt.Leaks)
+			res.count("depth_first_sort_results_judged", cnt.Sorts)
+			res.count("quiescent_states_checked_for_the_second_graph", cnt.Quiescent2)
 			if len(res.Samples) < 3 {
 				res.sample(map[string]any{"scenario": sc.String(), "pass": pname, "executions": res.Counters[pname+"_executions"], "distinct_outcomes": len(outcomes)})
 			}
@@ -321,7 +388,7 @@ func dagKnown(id string, sc *dagh.Scenario, msg string) string {
 
 func replayDag(id string, dc *dagCase, trace func(string)) (string, error) {
 	if dc.POR {
-		ch := &explore.SSChooser{Prefix: dc.Choices, Policy: dc.D}
+		ch := &explore.SCChooser{Prefix: dc.Choices, Policy: dc.D, ReadOnly: true}
 		fs, _, _, _ := dagh.ExecutePOR(dc.Scenario, ch, trace)
 		if ch.Diverged != "" {
 			return "", fmt.Errorf("replay diverged: %s", ch.Diverged)
@@ -353,8 +420,8 @@ func init() {
 		id := id
 		register(&Check{
 			ID:        id,
-			QuickSecs: 150,
-			ThoroSecs: 1500,
+			QuickSecs: 400, // safety net only: the quick tier is sized to finish in about 2 minutes on 16 idle cores
+			ThoroSecs: 2400,
 			Rule: "stateless model checking of the real dag.Graph.Run (instrumented at build time) under a cooperative scheduler: " +
 				"every scenario of the family (labelled DAGs x result scripts x modes x cancellation/buffering/shared tasks/construction histories) is executed for every schedule with <= k scheduling deviations, " +
 				"<= d map-iteration-order deviations and all task completion orders; evaluations = complete executions; states = choice points visited beyond replayed prefixes; " +
